@@ -415,21 +415,41 @@ def build_generic(ck):
                      tag='column offset(leaf)+position == flattened mv(basis vector (leaf, position))', finding=fid)
         return sc
 
+    # the locals of the generic builder by ROLE (AST of AbstractLinearOperator.as_matrix): the for loop is
+    # `for <ileaf>, <leaf> in enumerate(...)`, its carried state is the pair assigned from `jax.lax.fori_loop(..., (<matrix>,
+    # <jcounter>))`; the zero pytree built before the loop must not change
+    RN = {'matrix': 'matrix', 'jcounter': 'jcounter', 'ileaf': 'ileaf', 'in_pytree': 'in_pytree'}
+    try:
+        fnode = P.func(f'{CORE}.AbstractLinearOperator.as_matrix').node
+        loop = next(n for n in ast.walk(fnode) if isinstance(n, ast.For))
+        if isinstance(loop.target, ast.Tuple) and isinstance(loop.target.elts[0], ast.Name):
+            RN['ileaf'] = loop.target.elts[0].id
+        for st in ast.walk(loop):
+            if isinstance(st, ast.Assign) and isinstance(st.value, ast.Call) and ast.unparse(st.value.func).endswith('fori_loop') \
+                    and isinstance(st.targets[0], ast.Tuple) and len(st.targets[0].elts) == 2 \
+                    and all(isinstance(e, ast.Name) for e in st.targets[0].elts):
+                RN['matrix'], RN['jcounter'] = (e.id for e in st.targets[0].elts)
+        first = fnode.body[1] if isinstance(fnode.body[0], ast.Expr) else fnode.body[0]
+        if isinstance(first, ast.Assign) and isinstance(first.targets[0], ast.Name):
+            RN['in_pytree'] = first.targets[0].id
+    except Exception:       # noqa: BLE001
+        pass
+
     def outer_invariant(L):
-        M, jc = L.var('matrix'), L.var('jcounter')
+        M, jc = L.var(RN['matrix']), L.var(RN['jcounter'])
         if not isinstance(M, CM.MatV) or not B.is_intlike(jc):
             return False
         k = to_z3(L.k)
         return z3.And(to_z3(jc) == off(k), columns_below(M.cols, off(k)))
 
     def outer_havoc(L):
-        M = L.var('matrix')
-        L.set('matrix', M.like(z3.Const(CM.fresh_name('cols'), CM.VecArr)) if isinstance(M, CM.MatV) else M)
-        L.set('jcounter', fresh_int('jcounter'))
+        M = L.var(RN['matrix'])
+        L.set(RN['matrix'], M.like(z3.Const(CM.fresh_name('cols'), CM.VecArr)) if isinstance(M, CM.MatV) else M)
+        L.set(RN['jcounter'], fresh_int('jcounter'))
         if L.k is not None:
             L.run.assume(CM.psum_step(SZA, 0, L.k))
     outer = LoopSpec(outer_invariant, outer_havoc, name='columns-of-the-leaves-before-ileaf-are-written',
-                     unchanged=('in_pytree',))
+                     unchanged=(RN['in_pytree'],))
 
     def inner_invariant(ctx, i, carry):
         if not (isinstance(carry, tuple) and len(carry) == 2 and isinstance(carry[0], CM.MatV) and B.is_intlike(carry[1])):
@@ -438,14 +458,14 @@ def build_generic(ck):
         M0 = ctx.init[0]
         if not (M.nrows is M0.nrows and M.ncols is M0.ncols and M.dtype is M0.dtype):
             return False
-        k = to_z3(ctx.var('ileaf'))
+        k = to_z3(ctx.var(RN['ileaf']))
         return z3.And(to_z3(jc) == off(k) + to_z3(i), columns_below(M.cols, off(k) + to_z3(i)))
 
     def inner_havoc(ctx, init):
         return (init[0].like(z3.Const(CM.fresh_name('cols'), CM.VecArr)), fresh_int('jcounter'))
 
     def inner_lemmas(ctx, i, carry):
-        k = to_z3(ctx.var('ileaf'))
+        k = to_z3(ctx.var(RN['ileaf']))
         ctx.run.ghost['basis'] = (k, to_z3(i))
         return [decomposition(k, off(k) + to_z3(i)), CM.psum_step(SZA, 0, k), CM.psum_nonneg(SZA, 0, k),
                 CM.psum_split(SZA, 0, k + 1, NIN), CM.psum_nonneg(SZA, k + 1, NIN)]
@@ -499,6 +519,14 @@ def install_dense(T):
     T.externals['jax.numpy.eye'] = lambda interp, n, M=None, k=0, dtype=None: (
         DenseV('identity', n, dtype) if M is None and k == 0 else DenseV('eye', n, M, k, dtype))
     T.externals['jax.numpy.add'] = lambda interp, a, b: DenseV('add', a, b)
+
+    def multiply(interp, a, b):         # functional spelling of a scalar times a dense matrix (either order)
+        if isinstance(b, DenseV) and not isinstance(a, (Obj, DenseV)):
+            return DenseV('scale', a, b)
+        if isinstance(a, DenseV) and not isinstance(b, (Obj, DenseV)):
+            return DenseV('scale', b, a)
+        raise Unsupported('jnp.multiply outside the modelled form scalar x matrix')
+    T.externals['jax.numpy.multiply'] = multiply
     T.externals['jax.numpy.subtract'] = lambda interp, a, b: DenseV('sub', a, b)
     T.externals['jax.numpy.linalg.inv'] = lambda interp, a: DenseV('inv', a)
     T.externals['jax.numpy.result_type'] = lambda interp, *xs: ('result_type',) + tuple(
